@@ -61,12 +61,16 @@ CHECKS = {
               "spelling localhost/127.0.0.1) - enumerated completely - plus all pairs of UDP shared secrets from "
               "{'',alpha,beta,alphaX,ALPHA}. Client requires security and has the CA configured. Oracle: echo through the pair "
               "works <=> (insecure or certificate is the matching trusted unexpired one) and (not require or client certificate "
-              "from the server's CA); when refused, 0 bytes at the target; equal UDP secrets <=> session. non-trivial = "
+              "from the server's CA); when refused, 0 bytes at the target; equal UDP secrets <=> session. A rapid test adds "
+              "sequences: ONE client configuration with a list of 2-4 upstreams (tcp+tls, StartTLS, https, a failing "
+              "stdin+tls attempt; host spelled localhost or 127.0.0.1; certificate matching, valid for the other spelling "
+              "only, untrusted or expired): the connection must be served by the first entry the truth table admits when "
+              "judged on its own, whatever was attempted before it. non-trivial = "
               "insecure=false or require=true (a certificate decides); distinct = distinct tuple"),
         assumptions=["socketace.HandshakeTimeout is lowered to 8 s by the harness (package variable) so refused UDP handshakes end quickly",
                      "'established' is observed as a 200-byte echo within 15 s (60 s DNS)"],
-        quick=dict(run=".", timeout=900),
-        thorough=dict(run=".", timeout=3000, shards=8),
+        quick=dict(run=".", checks=60, timeout=900),
+        thorough=dict(run=".", checks=600, timeout=3000, shards=8),
         design_ref="DESIGN.md 2/C05",
         level_text=("The configuration space is finite and enumerated completely (exhaustive: true); each combination is run on a real "
                     "pair and compared with the truth table. A green run means admission equals the table for every combination."),
